@@ -4956,6 +4956,7 @@ type action =
 | AHandleDisconnect
 | ASetBroker of n
 | ASetPid of n
+| AHeal
 
 type case = { c_cfg : config; c_prog : action list; c_script : (n * n) list }
 
@@ -6269,6 +6270,18 @@ let run_action a w =
              false, true, false, true, true, false)), (String ((Ascii (false,
              false, true, false, false, true, true, false)),
              EmptyString)))))))))))
+  | AHeal ->
+    upd_log (upd_script w [])
+      (s2t (String ((Ascii (true, false, true, true, true, true, false,
+        false)), (String ((Ascii (false, false, false, false, false, true,
+        false, false)), (String ((Ascii (false, false, false, true, false,
+        true, true, false)), (String ((Ascii (true, false, true, false,
+        false, true, true, false)), (String ((Ascii (true, false, false,
+        false, false, true, true, false)), (String ((Ascii (false, false,
+        true, true, false, true, true, false)), (String ((Ascii (true, false,
+        true, false, false, true, true, false)), (String ((Ascii (false,
+        false, true, false, false, true, true, false)),
+        EmptyString)))))))))))))))))
 
 (** val halted : world -> bool **)
 
@@ -6313,6 +6326,7 @@ let action_code = function
 | AHandleDisconnect -> Npos (XI (XI (XO XH)))
 | ASetBroker _ -> Npos (XO (XO (XI XH)))
 | ASetPid _ -> Npos (XI (XO (XI XH)))
+| AHeal -> Npos (XO (XI (XI XH)))
 
 (** val step_action : world -> action -> world **)
 
@@ -6452,6 +6466,15 @@ let p_action =
                                                                     (ASetPid
                                                                     p))
                                                                   else 
+                                                                    if 
+                                                                    N.eqb k
+                                                                    (Npos (XO
+                                                                    (XI (XI
+                                                                    XH))))
+                                                                    then 
+                                                                    p_ret
+                                                                    AHeal
+                                                                    else 
                                                                     (fun _ ->
                                                                     None))
 
